@@ -72,7 +72,7 @@ def chem_rich(nspecies, n):
     out = []
     for s in range(nspecies):
         for i in range(n):
-            out.append(1 if (i % 3 == 0 if s == 0 else i % 4 == 1) else 0)
+            out.append(1 if (i % 3 == 0 if s == 0 else (i % 4 == 1 if s == 1 else i % 5 == 2)) else 0)
     return out
 
 
@@ -94,7 +94,32 @@ def _us(t):
     return UnitsSystem(space=t[0], time=t[1], quantity=t[2])
 
 
-def build_system(grid, env, chem, nspecies, u, var=None):
+# network alphabet: reaction orders 0, 1, 2, 3 in both directions (rate constants carry explicit units, so the same
+# physical network is declared whatever the network's units system is; kf of the zero-/first-order ones per environment)
+_K0 = {"a": "0.7 molecule.µm-3.s-1", "b": "1.3 molecule.µm-3.s-1", "c": "0.2 molecule.µm-3.s-1"}
+_K1 = {"a": "0.7 s-1", "b": "1.3 s-1", "c": "0 s-1"}
+NETS = [
+    {"name": "A -> B (orders 1/1)", "species": 2, "eq": "A -> B", "kf": _K1, "kr": "0.4 s-1"},
+    {"name": " -> A (orders 0/1)", "species": 2, "eq": " -> A", "kf": _K0, "kr": "0.4 s-1"},
+    {"name": "A ->  (orders 1/0)", "species": 2, "eq": "A -> ", "kf": _K1, "kr": "0.9 molecule.µm-3.s-1"},
+    {"name": "2 A -> B (orders 2/1)", "species": 2, "eq": "2 A -> B", "kf": "0.05 µm3.molecule-1.s-1", "kr": "0.4 s-1"},
+    {"name": "A + B -> C (orders 2/1)", "species": 3, "eq": "A + B -> C", "kf": "0.05 µm3.molecule-1.s-1", "kr": "0.3 s-1"},
+    {"name": "2 A + B -> C (orders 3/1)", "species": 3, "eq": "2 A + B -> C", "kf": "0.004 µm6.molecule-2.s-1",
+     "kr": "0.3 s-1"},
+]
+NET_VOLS = [1, 8, "0.3 µm3"]
+
+
+def net_var(u, vol_index):
+    """Cell-volume override of the network families: 1, 8 (plain numbers in the default space unit) or '0.3 µm3';
+    always an explicit string for the non-default units configuration 2 (space unit dm)."""
+    v = NET_VOLS[vol_index]
+    if u != 0 and not isinstance(v, str):
+        v = "%d µm3" % v
+    return {"vol": v, "vol_units": ("µm", "s", "molecule"), "shift": 0}
+
+
+def build_system(grid, env, chem, nspecies, u, var=None, net=0):
     """The fine system of a case and its reference description (SI).  var (history family) may override the
     cell volume ("vol", "vol_units") and shift the window of primes used as state ("shift")."""
     w, h, d = grid
@@ -108,14 +133,19 @@ def build_system(grid, env, chem, nspecies, u, var=None):
     reactions = []
     if nspecies >= 2:
         species.append(Species("B", D="5 µm2/s", units_system=_us(cfg["net"])))
-        reactions.append(Reaction("A -> B", kf={"a": "0.7 s-1", "b": "1.3 s-1", "c": "0 s-1"}, kr="0.4 s-1",
-                                  units_system=_us(cfg["net"])))
-    net = RDNetwork(species=species, reactions=reactions, environments=["a", "b", "c"],
-                    units_system=_us(cfg["net"]))
+    if nspecies >= 3:
+        species.append(Species("C", D="1.5 µm2/s", units_system=_us(cfg["net"])))
+    if nspecies >= 2:
+        nd = NETS[net]
+        if nd["species"] > nspecies:
+            raise ValueError("network %d needs %d species" % (net, nd["species"]))
+        reactions.append(Reaction(nd["eq"], kf=nd["kf"], kr=nd["kr"], units_system=_us(cfg["net"])))
+    network = RDNetwork(species=species, reactions=reactions, environments=["a", "b", "c"],
+                        units_system=_us(cfg["net"]))
     space = RDGridSpace(w=w, h=h, d=d, cell_env=list(env), cell_vol=cfg["vol"], units_system=_us(cfg["space"]))
     vals = PRIMES[shift:shift + nspecies * n]
     state = list(vals) if cfg["state_units"] is None else UnitArray(list(vals), cfg["state_units"])
-    system = RDSystem(net, space, state=state, chemostats=list(chem), units_system=_us(cfg["sys"]))
+    system = RDSystem(network, space, state=state, chemostats=list(chem), units_system=_us(cfg["sys"]))
     vnum = float(str(cfg["vol"]).split()[0])
     v_si = vnum * float(si.si_scale(cfg["vol_units"], (3, 0, 0)))
     qsys = cfg["sys"] if cfg["state_units"] is None else ("m", "s", cfg["state_units"])
@@ -134,13 +164,17 @@ def _fingerprint(system):
 
 
 def _get_system(case, cache):
-    key = (tuple(case["grid"]), tuple(case["env"]), tuple(case["chem"]), case["nspecies"], case["units"])
+    net = int(case.get("net", 0))
+    var = net_var(case["units"], case["vol"]) if case.get("vol") is not None else None
+    key = (tuple(case["grid"]), tuple(case["env"]), tuple(case["chem"]), case["nspecies"], case["units"], net,
+           case.get("vol"))
+    args = (case["grid"], case["env"], case["chem"], case["nspecies"], case["units"], var, net)
     if cache is None:
-        return build_system(case["grid"], case["env"], case["chem"], case["nspecies"], case["units"]), None, key
+        return build_system(*args), None, key
     if key not in cache:
         if len(cache) > 64:
             cache.clear()
-        s, r = build_system(case["grid"], case["env"], case["chem"], case["nspecies"], case["units"])
+        s, r = build_system(*args)
         cache[key] = (s, r, _fingerprint(s))
     s, r, fp = cache[key]
     return (s, r), fp, key
@@ -488,8 +522,12 @@ def _engine():
     return _ENGINE
 
 
-def _script(system, dt):
-    return RDScript(system=system, t_sample=[0, dt, 2 * dt, 3 * dt, 4 * dt], time_step=dt)
+def _script(system, dt, sunits=0):
+    if not sunits:
+        return RDScript(system=system, t_sample=[0, dt, 2 * dt, 3 * dt, 4 * dt], time_step=dt)
+    # another script units system; times stay the same physical times (explicit seconds)
+    return RDScript(system=system, t_sample=UnitArray([0, dt, 2 * dt, 3 * dt, 4 * dt], "s"), time_step="%r s" % dt,
+                    units_system=_us(SCRIPT_UNITS[sunits]))
 
 
 NS_SIM = 5
@@ -516,7 +554,7 @@ def _eval_simcg(case, cache):
         return out, info
     det = _drop_detail(m, env)
     info["drop_detail"] = det
-    script = _script(system, 0.001)
+    script = _script(system, 0.001, case.get("sunits", 0))
     try:
         engine = _engine()
     except _NoEngine as e:
@@ -559,7 +597,7 @@ def _eval_ident(case, cache):
     n = w * h * d
     S = case["nspecies"]
     (system, ref), fp, key = _get_system(case, None)
-    script = _script(system, 0.01)
+    script = _script(system, 0.01, case.get("sunits", 0))
     try:
         engine = _engine()
     except _NoEngine as e:
@@ -1129,6 +1167,42 @@ def _hist_spaces(T):
     return out
 
 
+def _net_spaces(T):
+    """Network alphabet (reaction orders 0..3 in both directions) x cell volumes {1, 8, '0.3 µm3'} x units
+    configurations {default, 2} x script units {default, nm/ms/pmol}: identity map vs plain run, and lumping maps."""
+    import itertools
+    out = []
+    grids = [(3, 1, 1), (2, 2, 1)] + ([(2, 2, 2), (3, 2, 1)] if T else [])
+    for g in grids:
+        n = g[0] * g[1] * g[2]
+        cases = []
+        for envname, net, vol, u, su, rich in itertools.product(("uniform", "three"), range(len(NETS)),
+                                                                range(len(NET_VOLS)), (0, 2), (0, 1), (0, 1)):
+            S = NETS[net]["species"]
+            cases.append({"sub": "ident", "grid": list(g), "env": env_map(envname, n),
+                          "chem": chem_rich(S, n) if rich else [0] * (S * n), "nspecies": S, "units": u,
+                          "net": net, "vol": vol, "sunits": su})
+        out.append(_sp_list("ident-net %dx%dx%d: identity map vs plain Euler x %d networks (orders 0-3, both directions) x "
+                            "cell volumes {1, 8, 0.3 µm3} x units configurations {0, 2} x script units {default, nm/ms/pmol} "
+                            "x {uniform, 3 environments} x {no, rich} chemostats" % (g + (len(NETS),)),
+                            "ident", cases, engine=True))
+    lump = [((3, 1, 1), ("uniform",))] + ([((2, 2, 1), ("uniform", "two"))] if T else [])
+    for g, envs in lump:
+        n = g[0] * g[1] * g[2]
+        cases = []
+        for envname, net, vol, su in itertools.product(envs, range(len(NETS)), range(len(NET_VOLS)),
+                                                       (0, 1) if T else (0,)):
+            S = NETS[net]["species"]
+            for m in itertools.product((0, 1, -1), repeat=n):
+                cases.append({"sub": "simcg", "grid": list(g), "env": env_map(envname, n), "chem": chem_rich(S, n),
+                              "nspecies": S, "units": 0, "net": net, "vol": vol, "sunits": su, "map": list(m)})
+        out.append(_sp_list("simcg-net %dx%dx%d: Euler with cgmap, valid maps among {-1,0,1}^%d x %d networks x cell volumes "
+                            "{1, 8, 0.3 µm3} x script units {%s} x environment maps %s"
+                            % (g + (n, len(NETS), "default, nm/ms/pmol" if T else "default", "/".join(envs))),
+                            "simcg", cases, engine=True))
+    return out
+
+
 def _script_spaces(T, seed=0):
     import itertools
     out = []
@@ -1284,6 +1358,7 @@ def _spaces(tier, seed=0):
     # -- process histories, script alphabet ---------------------------------------------------------------------
     sp += _hist_spaces(T)
     sp += _script_spaces(T, seed)
+    sp += _net_spaces(T)
     return sp
 
 
